@@ -410,6 +410,22 @@ def r5_package_delegation(chk):
         chk.ob('C10.R5', 'PyPackageSearcher.fileExists/package-dir', norm(calls[0].func.value.args[0]) ==
                'os.path.split(p.__file__)[0]' or 'os.path.dirname' in norm(calls[0].func.value.args[0]) or
                common.pmatch(calls[0].func.value.args[0], 'os.path.split($p.__file__)[0]') is not None, where(ci.mod, st), '')
+    # the object whose __file__ names the package directory must be the package that was asked for: a dotted name
+    # given to __import__ without a non-empty fromlist yields the *top-level* package
+    imps = [c for c in walk_no_nested(fn) if isinstance(c, ast.Call) and
+            dotted_name(c.func) in ('__import__', 'importlib.import_module', 'import_module')]
+    good = []
+    for c in imps:
+        if dotted_name(c.func) == '__import__':
+            fl = c.args[3] if len(c.args) > 3 else ([k.value for k in c.keywords if k.arg == 'fromlist'] or [None])[0]
+            good.append(isinstance(fl, (ast.List, ast.Tuple)) and len(fl.elts) > 0)
+        else:
+            good.append(True)
+    chk.ob('C10.R5', 'PyPackageSearcher.fileExists/imports-the-named-package', len(imps) == 1 and all(good) and
+           common.is_self_attr(imps[0].args[0], '_package') if imps and imps[0].args else False,
+           where(ci.mod, imps[0]) if imps else where(ci.mod, fn),
+           'the package must be imported as importlib.import_module(self._package) or __import__(self._package, ..., '
+           '[<non-empty fromlist>]): plain __import__("a.b.c") returns package `a`, whose directory is the wrong one')
     hs = [h for h in walk_no_nested(fn) if isinstance(h, ast.ExceptHandler) and h.type is not None and
           norm(h.type) == 'ImportError']
     ok = len(hs) == 1 and isinstance(hs[0].body[-1], ast.Raise) and 'PySmiFileNotFoundError' in model.exc_ancestors(
@@ -513,6 +529,13 @@ def r9_source_time_in_whole_seconds(chk):
                  'use for the transformed file (C10.R3): a float source time with a sub-second part makes an equally '
                  'new destination look stale',
                  keep=lambda o: o.key.split('/')[-1] in ('mtime-index', 'same-path-stat-and-open'))
+    from rules.C14 import r8_result_plumbing
+    common.reuse(chk, r8_result_plumbing, ('C14.R8',), 'C10.R9',
+                 'FileReader.getData reports mtime = os.stat(f)[8] (whole seconds), the same reading the file searchers '
+                 'use for the transformed file (C10.R3): a float source time with a sub-second part makes an equally '
+                 'new destination look stale; the ZIP reader converts the member\'s local wall-clock stamp with '
+                 'time.mktime (C14.R8)',
+                 keep=lambda o: 'mtime' in o.key)
 
 
 
